@@ -489,6 +489,8 @@ func checkC10(res *Result) {
 	addErrFlowObligations(res, p, E, "C10-R7", []string{"baseActor.PostInboxScheme", "baseActor.PostOutboxScheme", "baseActor.GetInbox", "baseActor.GetOutbox", "NewActivityStreamsHandlerScheme$1", "baseActor.deliver", "sideEffectActor.PostInbox", "sideEffectActor.PostOutbox", "sideEffectActor.AuthorizePostInbox"}, true)
 	res.Rule("C10-R9", "sentinel transparency: sideEffectActor.PostInbox / PostOutbox and baseActor.deliver hand a callback's error on as it is — none builds a new error from it and returns that instead (the comparison with ErrObjectRequired / ErrTargetRequired at the entry point decides the 400)")
 	checkSentinelTransparent(res, p, E, "C10-R9", []string{"sideEffectActor.PostInbox", "sideEffectActor.PostOutbox", "baseActor.deliver"})
+	res.Rule("C10-R12", "a 400 for a refused outbox activity comes with nothing changed: addToOutbox only after the callbacks (shared with C16-R10)")
+	checkOutboxAfterCallbacks(res, p, E, "C10-R12")
 	res.Rule("C10-R11", "'a failure is reported as an error with nothing written' rests on no failure being swallowed below the entry points: error discipline over everything reachable from the four delegate steps of a POST (PostInbox, PostOutbox, AuthorizePostInbox, InboxForwarding, deliver) — an error is looked at, and no return reports success while one is pending (shared with C06-R6 / C08-R5)")
 	addErrFlowObligations(res, p, E, "C10-R11", reachFrom(p, E, "sideEffectActor.PostInbox", "sideEffectActor.PostOutbox", "sideEffectActor.AuthorizePostInbox", "sideEffectActor.InboxForwarding", "baseActor.deliver"), true)
 	res.Rule("C10-R10", "unknown type ⇒ 400 rests on streams.ToType never answering (nil, nil): JSONResolver.Resolve (and its dispatch closure) return a nil error only where a callback has been called; ToType returns a nil error only after Resolve")
